@@ -338,3 +338,54 @@ func (m tokenMod) NonTrivial(x *X) bool {
 }
 
 var _ = fmt.Sprint
+
+// Tamper: damage the exported genesis (see main.go: Tamperer)
+func (m tokenMod) Tamper(x *X, c *Chain, raw json.RawMessage, k int) (json.RawMessage, string, bool) {
+	var gs tokenv1.GenesisState
+	c.App.AppCodec().MustUnmarshalJSON(raw, &gs)
+	if len(gs.Tokens) == 0 {
+		return nil, "", false
+	}
+	used := map[string]bool{}
+	for _, t := range gs.Tokens {
+		used[t.Symbol] = true
+	}
+	unused := ""
+	for _, s := range tokSymbols {
+		if !used[s] {
+			unused = s
+		}
+	}
+	last := gs.Tokens[len(gs.Tokens)-1]
+	what := ""
+	switch k % 5 {
+	case 0:
+		what = "duplicate-symbol"
+		dup := last
+		dup.Name = "copy"
+		gs.Tokens = append(gs.Tokens, dup)
+	case 1:
+		if unused == "" {
+			return nil, "", false
+		}
+		what = "duplicate-min-unit"
+		dup := last
+		dup.Symbol = unused
+		gs.Tokens = append(gs.Tokens, dup)
+	case 2:
+		if unused == "" {
+			return nil, "", false
+		}
+		what = "fee-token-missing"
+		gs.Params.IssueTokenBaseFee.Denom = unused
+	case 3:
+		if gs.Tokens[0].InitialSupply == 0 {
+			return nil, "", false
+		}
+		what = "max-below-initial"
+		gs.Tokens[0].MaxSupply = gs.Tokens[0].InitialSupply - 1
+	case 4:
+		what = "untouched"
+	}
+	return c.App.AppCodec().MustMarshalJSON(&gs), what, true
+}
